@@ -5,6 +5,7 @@ import (
 	"go/ast"
 	"go/token"
 	"go/types"
+	"math/big"
 	"strings"
 
 	"verif/internal/core"
@@ -349,5 +350,364 @@ func checkArmijoBeforeAcceptance(c *core.Ctx) {
 		ok := e != nil && ab != nil && g.Dominates(e, ab)
 		c.Check(ok, "C07.R4", cons, "sufficient decrease is tested before a step is accepted", accept.Pos(),
 			"the step is accepted under the curvature condition on a path that has not passed the sufficient-decrease test "+types.ExprString(armijo)+" (its false branch does not dominate the acceptance): a trial step on a flat spot above the Armijo line is returned, which violates the first strong Wolfe condition")
+	}
+}
+
+// C07.R8 — form of the strong Wolfe tests. In lineSearch and zoom the trial value (y, g) := f(alpha) is compared with
+// the Armijo line and the curvature bound of the start point: the sufficient-decrease test has the form
+// y > P + c1*alpha*Q and the curvature test |g| <= -c2*Q, with alpha the step at which y and g were evaluated and the
+// same slope Q in both (terms compared as polynomials; P and Q single variables).
+func checkWolfeTerms(c *core.Ctx) {
+	c.Rule("C07.R8", "line search: the sufficient-decrease test compares the trial value with P + c1*alpha*Q at the trial step alpha itself, and the curvature test bounds the trial slope by -c2*Q with the same Q", 4)
+	p := c.Pkg("algorithm/lineSearch")
+	if p == nil {
+		c.Unknown("C07.R8", "algorithm/lineSearch", "package loaded", token.NoPos, "not loaded")
+		return
+	}
+	info := p.TypesInfo
+	for _, fname := range []string{"lineSearch", "zoom"} {
+		fd := findFuncDecl(p, fname)
+		cons := "algorithm/lineSearch." + fname
+		if fd == nil {
+			c.Unknown("C07.R8", cons, "present", token.NoPos, "not found")
+			continue
+		}
+		symOf := map[types.Object]*sym.Term{}
+		var toSym func(e ast.Expr) *sym.Term
+		toSym = func(e ast.Expr) *sym.Term {
+			if tv, ok := info.Types[e]; ok && tv.Value != nil {
+				if r, ok := new(big.Rat).SetString(tv.Value.ExactString()); ok {
+					return sym.Const(r)
+				}
+			}
+			switch x := ast.Unparen(e).(type) {
+			case *ast.Ident:
+				o := info.Uses[x]
+				if o == nil {
+					o = info.Defs[x]
+				}
+				if o == nil {
+					return nil
+				}
+				if t, ok := symOf[o]; ok {
+					return t
+				}
+				t := sym.Sym(fmt.Sprintf("%s@%d", x.Name, o.Pos()))
+				symOf[o] = t
+				return t
+			case *ast.BinaryExpr:
+				a, b := toSym(x.X), toSym(x.Y)
+				if a == nil || b == nil {
+					return nil
+				}
+				switch x.Op {
+				case token.ADD:
+					return sym.Add(a, b)
+				case token.SUB:
+					return sym.Sub(a, b)
+				case token.MUL:
+					return sym.Mul(a, b)
+				}
+			case *ast.UnaryExpr:
+				if x.Op == token.SUB {
+					if a := toSym(x.X); a != nil {
+						return sym.Neg(a)
+					}
+				}
+			}
+			return nil
+		}
+		// the trial evaluation: Y, G, err (:)= f(A) inside the loop
+		var yObj, gObj types.Object
+		var aExpr ast.Expr
+		ast.Inspect(fd.Body, func(n ast.Node) bool {
+			fs, ok := n.(*ast.ForStmt)
+			if !ok {
+				return true
+			}
+			ast.Inspect(fs.Body, func(m ast.Node) bool {
+				as, ok := m.(*ast.AssignStmt)
+				if !ok || len(as.Lhs) != 3 || len(as.Rhs) != 1 || yObj != nil {
+					return true
+				}
+				ce, ok := ast.Unparen(as.Rhs[0]).(*ast.CallExpr)
+				if !ok || len(ce.Args) != 1 {
+					return true
+				}
+				obj := func(e ast.Expr) types.Object {
+					id, ok := e.(*ast.Ident)
+					if !ok {
+						return nil
+					}
+					if o := info.Defs[id]; o != nil {
+						return o
+					}
+					return info.Uses[id]
+				}
+				yObj, gObj, aExpr = obj(as.Lhs[0]), obj(as.Lhs[1]), ce.Args[0]
+				return true
+			})
+			return yObj == nil
+		})
+		if yObj == nil || gObj == nil {
+			c.Unknown("C07.R8", cons, "trial evaluation", fd.Pos(), "no statement of the form y, g, err = f(alpha) found in the loop")
+			continue
+		}
+		A := toSym(aExpr)
+		var c1, c2 types.Object
+		ast.Inspect(fd.Body, func(n ast.Node) bool {
+			if id, ok := n.(*ast.Ident); ok {
+				if o := info.Defs[id]; o != nil {
+					if id.Name == "c1" {
+						c1 = o
+					}
+					if id.Name == "c2" {
+						c2 = o
+					}
+				}
+			}
+			return true
+		})
+		if A == nil || c1 == nil || c2 == nil {
+			c.Unknown("C07.R8", cons, "Wolfe constants", fd.Pos(), "constants c1/c2 or the trial step not found")
+			continue
+		}
+		// single-variable terms
+		single := func(t *sym.Term) bool {
+			for _, q := range symOf {
+				if sym.Equal(t, q) {
+					return true
+				}
+			}
+			return false
+		}
+		var slopeArmijo, slopeCurv *sym.Term
+		msgA, msgC := "sufficient-decrease test not found", "curvature test not found"
+		posA, posC := fd.Pos(), fd.Pos()
+		ast.Inspect(fd.Body, func(n ast.Node) bool {
+			be, ok := n.(*ast.BinaryExpr)
+			if !ok {
+				return true
+			}
+			mentions := func(e ast.Expr, o types.Object) bool {
+				f := false
+				ast.Inspect(e, func(m ast.Node) bool {
+					if id, ok := m.(*ast.Ident); ok && info.Uses[id] == o {
+						f = true
+					}
+					return true
+				})
+				return f
+			}
+			switch {
+			case be.Op == token.GTR && mentions(be.Y, c1) && slopeArmijo == nil:
+				posA = be.Pos()
+				if id, ok := ast.Unparen(be.X).(*ast.Ident); !ok || info.Uses[id] != yObj {
+					msgA = "the left-hand side of the sufficient-decrease test is not the trial value " + yObj.Name()
+					return true
+				}
+				rhs := toSym(be.Y)
+				if rhs == nil {
+					msgA = "the Armijo line is not a polynomial in the loop's variables"
+					return true
+				}
+				msgA = "the Armijo line " + types.ExprString(be.Y) + " is not of the form P + c1*" + types.ExprString(aExpr) + "*Q with " + types.ExprString(aExpr) + " the step at which " + yObj.Name() + " was evaluated"
+				for o, q := range symOf {
+					_ = o
+					rest := sym.Sub(rhs, sym.Mul(sym.Mul(symOf[c1], A), q))
+					if single(rest) && !sym.Equal(rest, A) && !sym.Equal(q, A) && !sym.Equal(q, symOf[c1]) {
+						slopeArmijo = q
+						msgA = ""
+						break
+					}
+				}
+			case be.Op == token.LEQ && mentions(be.Y, c2) && slopeCurv == nil:
+				posC = be.Pos()
+				ce, ok := ast.Unparen(be.X).(*ast.CallExpr)
+				if !ok || len(ce.Args) != 1 {
+					msgC = "the curvature test does not bound |g|"
+					return true
+				}
+				if fn := core.Callee(info, ce); fn == nil || fn.Name() != "Abs" {
+					msgC = "the curvature test does not bound |g|"
+					return true
+				}
+				if id, ok := ast.Unparen(ce.Args[0]).(*ast.Ident); !ok || info.Uses[id] != gObj {
+					msgC = "the curvature test bounds something other than the trial slope " + gObj.Name()
+					return true
+				}
+				rhs := toSym(be.Y)
+				if rhs == nil {
+					msgC = "the curvature bound is not a polynomial"
+					return true
+				}
+				msgC = "the curvature bound " + types.ExprString(be.Y) + " is not -c2*Q"
+				for _, q := range symOf {
+					if sym.Equal(rhs, sym.Neg(sym.Mul(symOf[c2], q))) {
+						slopeCurv = q
+						msgC = ""
+						break
+					}
+				}
+			}
+			return true
+		})
+		c.Check(msgA == "", "C07.R8", cons, "sufficient-decrease test", posA, msgA)
+		if msgA == "" && msgC == "" && !sym.Equal(slopeArmijo, slopeCurv) {
+			msgC = "the curvature test uses a different start slope than the sufficient-decrease test"
+		}
+		c.Check(msgC == "", "C07.R8", cons, "curvature test", posC, msgC)
+	}
+}
+
+// C07.R9 — the step measure of the SAGA stopping rule. EvalStopping walks the two iterates jointly; the quantity it
+// accumulates as "change" has to be the modulus of the difference of the two coordinates (a maximum over |v2 - v1|), not
+// a difference of moduli, which vanishes for coordinates that shrink.
+func checkStepMeasure(c *core.Ctx) {
+	c.Rule("C07.R9", "SAGA stopping rule: every accumulated quantity that reads the previous iterate's coordinate is max(., |v2 - v1|) of the two coordinates", 1)
+	p := c.Pkg("algorithm/saga")
+	if p == nil {
+		c.Unknown("C07.R9", "algorithm/saga", "package loaded", token.NoPos, "not loaded")
+		return
+	}
+	info := p.TypesInfo
+	fd := findFuncDecl(p, "EvalStopping")
+	cons := "algorithm/saga.EvalStopping"
+	if fd == nil {
+		c.Unknown("C07.R9", cons, "present", token.NoPos, "not found")
+		return
+	}
+	// s1, s2 := it.Get(); v_k = s_k.GetFloat64()
+	var s [2]types.Object
+	ast.Inspect(fd.Body, func(n ast.Node) bool {
+		as, ok := n.(*ast.AssignStmt)
+		if !ok || len(as.Lhs) != 2 || len(as.Rhs) != 1 {
+			return true
+		}
+		ce, ok := ast.Unparen(as.Rhs[0]).(*ast.CallExpr)
+		if !ok {
+			return true
+		}
+		if sel, ok := ast.Unparen(ce.Fun).(*ast.SelectorExpr); ok && (sel.Sel.Name == "Get" || sel.Sel.Name == "GET" || sel.Sel.Name == "GetConst") {
+			for k := 0; k < 2; k++ {
+				if id, ok := as.Lhs[k].(*ast.Ident); ok {
+					s[k] = info.Defs[id]
+				}
+			}
+		}
+		return true
+	})
+	var v [2]types.Object
+	ast.Inspect(fd.Body, func(n ast.Node) bool {
+		as, ok := n.(*ast.AssignStmt)
+		if !ok || len(as.Lhs) != 1 || len(as.Rhs) != 1 {
+			return true
+		}
+		ce, ok := ast.Unparen(as.Rhs[0]).(*ast.CallExpr)
+		if !ok {
+			return true
+		}
+		sel, ok := ast.Unparen(ce.Fun).(*ast.SelectorExpr)
+		if !ok || !strings.HasPrefix(sel.Sel.Name, "GetFloat") {
+			return true
+		}
+		rid, ok := ast.Unparen(sel.X).(*ast.Ident)
+		lid, ok2 := as.Lhs[0].(*ast.Ident)
+		if !ok || !ok2 {
+			return true
+		}
+		for k := 0; k < 2; k++ {
+			if s[k] != nil && info.Uses[rid] == s[k] {
+				v[k] = info.Uses[lid]
+				if v[k] == nil {
+					v[k] = info.Defs[lid]
+				}
+			}
+		}
+		return true
+	})
+	if v[0] == nil || v[1] == nil {
+		c.Unknown("C07.R9", cons, "coordinates of the two iterates", fd.Pos(), "the values v1, v2 read from the joint iterator were not found")
+		return
+	}
+	// locals defined once by := are expanded (d := v2 - v1; math.Abs(d))
+	defs := map[types.Object]ast.Expr{}
+	ast.Inspect(fd.Body, func(nd ast.Node) bool {
+		if as, ok := nd.(*ast.AssignStmt); ok && as.Tok == token.DEFINE && len(as.Lhs) == len(as.Rhs) {
+			for i, l := range as.Lhs {
+				if id, ok := l.(*ast.Ident); ok {
+					if o := info.Defs[id]; o != nil && o != v[0] && o != v[1] {
+						if _, isLit := ast.Unparen(as.Rhs[i]).(*ast.BasicLit); !isLit {
+							defs[o] = as.Rhs[i]
+						}
+					}
+				}
+			}
+		}
+		return true
+	})
+	var render func(e ast.Expr, depth int) string
+	render = func(e ast.Expr, depth int) string {
+		switch x := ast.Unparen(e).(type) {
+		case *ast.Ident:
+			o := info.Uses[x]
+			if o == v[0] {
+				return "V1"
+			}
+			if o == v[1] {
+				return "V2"
+			}
+			if d, ok := defs[o]; ok && depth < 4 {
+				return render(d, depth+1)
+			}
+			return x.Name
+		case *ast.BinaryExpr:
+			return render(x.X, depth) + x.Op.String() + render(x.Y, depth)
+		case *ast.UnaryExpr:
+			return x.Op.String() + render(x.X, depth)
+		case *ast.CallExpr:
+			name := types.ExprString(x.Fun)
+			if fn := core.Callee(info, x); fn != nil {
+				name = fn.Name()
+			}
+			var as []string
+			for _, a := range x.Args {
+				as = append(as, render(a, depth))
+			}
+			return name + "{" + strings.Join(as, ",") + "}"
+		}
+		return types.ExprString(e)
+	}
+	n := 0
+	ast.Inspect(fd.Body, func(nd ast.Node) bool {
+		as, ok := nd.(*ast.AssignStmt)
+		if !ok || as.Tok != token.ASSIGN || len(as.Lhs) != 1 || len(as.Rhs) != 1 {
+			return true
+		}
+		lid, ok := as.Lhs[0].(*ast.Ident)
+		if !ok {
+			return true
+		}
+		r := render(as.Rhs[0], 0)
+		if !strings.Contains(r, "V1") {
+			return true
+		}
+		if o := info.Uses[lid]; o == v[0] || o == v[1] {
+			return true
+		}
+		n++
+		X := lid.Name
+		good := false
+		for _, d := range []string{"Abs{V2-V1}", "Abs{V1-V2}"} {
+			if r == d || r == "Max{"+X+","+d+"}" || r == "Max{"+d+","+X+"}" {
+				good = true
+			}
+		}
+		c.Check(good, "C07.R9", cons, "accumulation "+types.ExprString(as.Lhs[0]), as.Pos(),
+			"the change between the iterates is accumulated as "+types.ExprString(as.Rhs[0])+", not as the maximum of |v2 - v1|: a step that shrinks coordinates is measured as zero and the run stops far from the minimiser")
+		return true
+	})
+	if n == 0 {
+		c.Fail("C07.R9", cons, "accumulation", fd.Pos(), "no quantity reads the previous iterate: the stopping rule cannot measure the step")
 	}
 }
